@@ -98,6 +98,13 @@ def cases(draw, tier="quick"):
         for u in ups:
             for _ in range(draw(st.integers(0, 2))):
                 uris.append(u + draw(st.sampled_from(["1", "22", "abc", "A1", "x9"])))
+        # unrecognised siblings in the SAME putative group as the recognised URIs of a prefix that ends inside an identifier
+        # (so that a cutoff sees a group of which only a part may be counted)
+        for u in ups:
+            cut = max(u.rfind(ch) for ch in "#/_")
+            if 0 <= cut < len(u) - 1 and u[cut + 1:].isalnum():
+                for t in draw(st.lists(st.sampled_from(["1", "zz9", "Q5", "00"]), unique=True, max_size=3)):
+                    uris.append(u[: cut + 1] + t)
     perm = list(draw(st.permutations(range(len(uris))))) if len(uris) > 1 else list(range(len(uris)))
     dup = draw(st.lists(st.integers(0, max(0, len(uris) - 1)), max_size=3)) if uris else []
     return {"uris": uris, "delimiters": delimiters, "cutoff": cutoff, "metaprefix": metaprefix, "converter": conv, "perm": perm, "dup": dup,
